@@ -14,7 +14,7 @@ the end-to-end CSV fidelity run.
 """
 from contracts.common import (Item, mk_resource, mk_package2, run_spec, ghost_row, expect_no_raise_or_same, row_transducer, _b,
                               selector)
-from contracts import C14 as K14, C10 as K10, C16 as K16
+from contracts import C14 as K14, C10 as K10, C16 as K16, natives as NAT
 
 P = 'dataflows/processors/'
 TRUSTED = ['T1 pyvc model of Python (DESIGN 3)', 'T15 tabulator.Stream: headers, rows in file order, one per data line, cell text '
@@ -54,7 +54,7 @@ def sym_limiter(vc):
 
     def thunk(it):
         lim = sym_int(it, 'limit_rows')
-        it.assume(lim.t >= 1)                       # limiter is installed only when limit_rows is truthy
+        it.assume(lim.t >= 0)                       # exactly the first n rows, for every n >= 0 (n = 0: no row, nothing read)
         ld = mk_load(it, limit_rows=lim)
         rows = row_stream(it, 'iterator')
 
@@ -89,6 +89,10 @@ def sym_limiter(vc):
         if 'exit_mark' in it.path.info:
             n = it.path.info['count:limiter#L0']
             check(it, 'shorter-stream-delivered-completely', n < lim.t)
+        if not [e for e in it.path.events if e.kind in ('Pull', 'Exhausted', 'Break')]:
+            # the loop was never reached
+            check(it, 'nothing-read-and-nothing-yielded-only-for-a-limit-of-zero', z3.And(lim.t == 0, _b(not yields_of(it.path.events))))
+            cover(it, 'zero-limit-reachable')
     paths = vc.explore(fk, thunk, min_paths=3)
     expect_no_raise_or_same(vc, fk, paths)
 
@@ -160,7 +164,8 @@ def sym_tuple_source(vc):
             given = []
 
             def mk_iter(it_):
-                o = Opaque('iterator', 'given_iterator%d' % len(given))
+                from pyvc.api import row_stream
+                o = row_stream(it_, 'given_iterator%d' % len(given))
                 given.append(o)
                 return o
             iters = Stream('resource_iterator', mk_iter)
@@ -183,12 +188,33 @@ def sym_tuple_source(vc):
                 check(it, 'descriptor-kept-iff-selected' + tag,
                       z3.And(z3.Implies(m, _b(len(aps) == 1 and aps[0].value is rd)), z3.Implies(z3.Not(m), _b(len(aps) == 0))))
                 cover(it, 'iter-reachable' + tag)
-            it.loops['load.safe_process_datapackage#L0'] = LoopSpec(at_start=at_start, at_end=at_end)
+            def at_entry(it, env):
+                me = env.lookup('self')
+                cur = me.attrs.get('resource_descriptors')
+                check(it, 'collecting-starts-from-an-empty-list-whatever-an-earlier-use-left' + tag,
+                      isinstance(cur, PyList) and cur.items == [])
+            it.loops['load.safe_process_datapackage#L0'] = LoopSpec(at_start=at_start, at_end=at_end, at_entry=at_entry)
+            # the step object may have been used before: whatever that run collected must not be loaded again
+            stale_d, stale_i = Opaque('descriptor', 'descriptor_of_an_earlier_run'), Opaque('iterator', 'exhausted_iterator_of_an_earlier_run')
+            for attr, stale in (('resource_descriptors', stale_d), ('iterators', stale_i)):
+                if isinstance(ld.attrs.get(attr), PyList):
+                    ld.attrs[attr].items.append(stale)
+            before_d, before_i = ld.attrs.get('resource_descriptors'), ld.attrs.get('iterators')
+            n_call = len(it.path.events)
             r = it.call(it.lib.getattr_(it, ld, 'safe_process_datapackage'), [dp])
+            rds = ld.attrs['resource_descriptors']
+            # (the collecting lists are started afresh by the call: what is appended to the package is a list made in this call, and no
+            # append of this call went to a list that existed before it)
+            old_appends = [e for e in it.path.events[n_call:] if e.kind == 'Append' and (e.obj is before_d or e.obj is before_i)]
+            check(it, 'nothing-of-an-earlier-use-is-loaded-again' + tag, not (isinstance(rds, PyList) and stale_d in rds.items) and
+                  not (isinstance(ld.attrs['iterators'], PyList) and stale_i in ld.attrs['iterators'].items) and
+                  rds is not before_d and not old_appends)
             its = ld.attrs['iterators']
             # iterators: a LAZY filter over the pairs (k-th given iterator, k-th descriptor), by the same matcher on the
-            # descriptor's name
-            ok = isinstance(its, lib.GenExp)
+            # descriptor's name; the rows of a skipped iterator are consumed before the next pair is looked at (the iterators
+            # may all read one sequential medium)
+            from pyvc.api import GenObj
+            ok = isinstance(its, (lib.GenExp, GenObj))
             check(it, 'iterators-filtered-lazily' + tag, ok and not [e for e in it.path.events if e.kind in ('Pull', 'Drain', 'Take')
                                                                       and getattr(e, 'src', None) in (iters, iters.name)])
             if ok:
@@ -203,10 +229,19 @@ def sym_tuple_source(vc):
                         m = want(pw, pw.RESNAME(k))
                         check(it_, 'kth-iterator-kept-iff-kth-descriptor-selected' + tag, z3.And(
                             z3.Implies(m, _b(len(ys) == 1 and ys[0].obj is given[0])), z3.Implies(z3.Not(m), _b(len(ys) == 0))))
+                        drained = bool([e for e in evs if e.kind == 'Drain' and e.src in (given[0], getattr(given[0], 'name', None))]) or \
+                            given[0].drained is True
+                        check(it_, 'skipped-iterator-consumed-selected-iterator-untouched' + tag, z3.And(
+                            z3.Implies(m, _b(not drained)), z3.Implies(z3.Not(m), _b(drained))))
                     cover(it_, 'pair-reachable' + tag)
                 it.loops['<top>#X0'] = LoopSpec(at_end=p_end)
+                it.loops['load.selected_iterators#L0'] = LoopSpec(at_end=p_end)
+                it.loops['selected_iterators#L0'] = LoopSpec(at_end=p_end)
                 n_before = len(it.path.events)
-                it.lib.yield_from(it, its)
+                if isinstance(its, GenObj):
+                    it.run_generator(its)
+                else:
+                    it.lib.yield_from(it, its)
                 check(it, 'nothing-yielded-after-the-pairs-are-exhausted' + tag, not yields_of(it.path.events[n_before:]))
             ex = [e for e in it.path.events if e.kind == 'Call' and e.method == 'extend']
             check(it, 'selected-descriptors-appended-after-the-existing-resources' + tag,
@@ -221,14 +256,14 @@ def nat_wrappers(h):
     from dataflows.processors.load import load
     for _ in range(h.n()):
         rows = h.rows(keys=['a', 'b', 'c'], vals=[' x', 'y ', ' z ', 'w', '', None, 5, 1.5, True, '\tq\n', ' '], total=h.rng.random() < 0.7)
-        ld = load('x.csv', limit_rows=h.rng.choice([None, 1, 2, 3, 10]))
+        ld = load('x.csv', limit_rows=h.rng.choice([None, 0, 1, 2, 3, 10]))
         # stripper: leading/trailing whitespace of string cells removed, everything else untouched, in place
         inp = [dict(r) for r in rows]
         got = list(ld.stripper(iter(inp)))
         want = [{k: (v.strip() if isinstance(v, str) else v) for k, v in r.items()} for r in rows]
         h.check(got == want and all(a is b for a, b in zip(got, inp)), P + 'load.py::load.stripper', rows, want, got)
         # limiter
-        if ld.limit_rows:
+        if ld.limit_rows is not None:
             pulled = [0]
 
             def src():
@@ -308,7 +343,7 @@ def nat_csv(h):
                 w.writerow(hdr)
                 w.writerows(table)
             strip = h.rng.random() < 0.5
-            limit = h.rng.choice([None, None, 1, 3])
+            limit = h.rng.choice([None, None, 0, 1, 3])
             dedup = h.rng.random() < 0.6
             cs = h.rng.random() < 0.5
             exact_dup = len(set(hdr)) != len(hdr)
@@ -333,7 +368,7 @@ def nat_csv(h):
                 h.check(len(set(names)) == len(names) and len(names) == len(hdr), P + 'load.py::load.rename_duplicate_headers', cfg,
                         'unique names', names)
             exp = [[(c.strip() if strip else c) for c in r] for r in table]
-            if limit:
+            if limit is not None:
                 exp = exp[:limit]
             gotrows = [[r[n] for n in names] for r in res[0]]
             h.check(gotrows == exp, P + 'load.py::load', cfg, exp, gotrows)
@@ -383,7 +418,7 @@ ITEMS = [
     Item('load.limiter', sym_limiter, [('wrappers', nat_wrappers)], P + 'load.py::load.limiter'),
     Item('load.stringer', sym_stringer, [], P + 'load.py::load.stringer'),
     Item('load.stripper', sym_stripper, [], P + 'load.py::load.stripper'),
-    Item('load.tuple-source', sym_tuple_source, [], P + 'load.py::load.safe_process_datapackage'),
+    Item('load.tuple-source', sym_tuple_source, [('sequential-source-selectors', NAT.nat_load_pair_selectors)], P + 'load.py::load.safe_process_datapackage'),
     Item('load.process_resources', K16.sym_appenders, [], P + 'load.py::load.process_resources'),
     Item('ResourceMatcher', K10.ITEMS[0].symbolic, [], 'dataflows/helpers/resource_matcher.py::ResourceMatcher.match'),
     Item('schema_validator', K14.sym_schema_validator, [], 'dataflows/base/schema_validator.py::schema_validator'),
